@@ -45,6 +45,10 @@ struct Case {
     links: u8,
     same_account: bool,
     evs: Vec<Ev>,
+    /// link lifetime: false = 1800 s (longer than the 900 s update session), true = 300 s (the
+    /// minimum; shorter than a session, so a session can outlive its link)
+    #[serde(default)]
+    short_ttl: bool,
 }
 
 struct Thread {
@@ -127,7 +131,7 @@ fn check(th: &mut Thread, case: &Case) -> Outcome {
                 .write(ct, |t| {
                     let ae = t.qs_write.internal_search_uuid(UUID_IDM_ADMIN)?;
                     t.init_credential_update_intent(
-                        &InitCredentialUpdateIntentEvent::new(ident::user_readwrite(ae), target, Some(Duration::from_secs(1800))),
+                        &InitCredentialUpdateIntentEvent::new(ident::user_readwrite(ae), target, Some(Duration::from_secs(if case.short_ttl { 300 } else { 1800 }))),
                         ct,
                     )
                 })
@@ -334,12 +338,14 @@ const ALPHA1: [Ev; 7] = [
 ];
 
 fn enum_case(len: usize, mut i: u64) -> Case {
+    let short_ttl = i % 2 == 1;
+    i /= 2;
     let mut evs = Vec::with_capacity(len);
     for _ in 0..len {
         evs.push(ALPHA1[(i % 7) as usize]);
         i /= 7;
     }
-    Case { links: 1, same_account: true, evs }
+    Case { links: 1, same_account: true, evs, short_ttl }
 }
 
 fn arb_case() -> impl Strategy<Value = Case> {
@@ -350,7 +356,7 @@ fn arb_case() -> impl Strategy<Value = Case> {
         1 => (0u8..2).prop_map(Ev::AdvPastTtl),
         2 => prop_oneof![Just(1u32), Just(299), Just(301), Just(899), Just(901), Just(1799), 0u32..4000].prop_map(Ev::Adv),
     ];
-    (any::<bool>(), proptest::collection::vec(ev, 4..12)).prop_map(|(same_account, evs)| Case { links: 2, same_account, evs })
+    (any::<bool>(), any::<bool>(), proptest::collection::vec(ev, 4..12)).prop_map(|(same_account, short_ttl, evs)| Case { links: 2, same_account, evs, short_ttl })
 }
 
 fn main() {
@@ -364,7 +370,7 @@ fn main() {
     cx.assume("a session exchanged before the link expired may still commit after the link's expiry (the property restricts exchange, not commit, after expiry)");
     let maxlen = cx.tier.pick(4usize, 6usize);
     for len in 1..=maxlen {
-        cx.enumerate(&format!("one-link-len{len}"), 7u64.pow(len as u32), |i| enum_case(len, i), setup, |th, c| check(th, c));
+        cx.enumerate(&format!("one-link-len{len}"), 2 * 7u64.pow(len as u32), |i| enum_case(len, i), setup, |th, c| check(th, c));
     }
     let n = cx.tier.pick(700, 30_000);
     cx.prop("two-links", PropCfg::new(n).shrink(200), arb_case, setup, |th, c| check(th, c));
